@@ -151,6 +151,30 @@ bool waitAllParked(dispenso::ThreadPool& pool, const std::vector<int>& workerTid
   return false;
 }
 
+bool waitFlagOrStranded(std::atomic<int>& flag, dispenso::ThreadPool& pool, const std::vector<int>& workerTids, double guardSeconds) {
+  const int N = static_cast<int>(workerTids.size());
+  double t0 = vrt::nowSeconds(), nextSample = t0 + 0.05;
+  int samples = 0;
+  uint64_t lastExits = ~0ull;
+  while (!flag.load(std::memory_order_relaxed)) {
+    double now = vrt::nowSeconds();
+    if (now - t0 > guardSeconds) return false;
+    if (now >= nextSample) {
+      nextSample = now + 0.1;
+      vrt::FutexStats fs = vrt::futexStats();
+      bool asleep = allAsleep(workerTids);
+      if (!asleep) vrt::progress();
+      bool c = asleep && fs.inTimedWaitNow == N && pool.verifNumSleeping() == N;
+      if (c && (samples == 0 || fs.waitExits == lastExits)) ++samples;
+      else samples = c ? 1 : 0;
+      lastExits = fs.waitExits;
+      if (samples >= 3 && !flag.load(std::memory_order_relaxed)) return false;
+    }
+    vrt::sleepUs(50);
+  }
+  return true;
+}
+
 J poolJson(dispenso::ThreadPool& pool) {
   J j;
   j.kv("numThreads", static_cast<long>(pool.numThreads()))
